@@ -18,44 +18,40 @@ def run(chk, tier):
     if not chk.need(f is not None, "R-TAB: hwloc_calc_append_set vanished"):
         return "broken"
     E = calc.enum_consts
-    # switch arms: case MODE -> the bitmap combinator called in that arm on (set, set, newset)
-    arms = {}
-    for sw in [x for x in f.walk() if x["k"] == "Switch"]:
-        cur = None
-        for stn in sw["c"][1].get("c") or []:
-            if stn is None:
-                continue
-            node = stn
-            while node["k"] in ("Case", "Default"):
-                cur = cval(node["c"][0]) if node["k"] == "Case" else None
-                node = node["c"][-1]
-            for y in subnodes(node):
-                if y["k"] == "Call" and (y.get("fn") or "").startswith("hwloc_bitmap_") and y["fn"] not in ("hwloc_bitmap_asprintf",) and cur is not None:
-                    a = args(y)
-                    arms[cur] = (y["fn"], [lv(z) for z in a])
-            if node["k"] == "Break":
-                cur = None
+    # decided by evaluation: with the mode parameter seeded to each enumerator, exactly the expected combinator is reached, applied
+    # to (set, set, newset); with the first character of the argument seeded to each prefix, hwloc_calc_append_set is given the mode
+    import peval
+    pm = [p["n"] for p in f.params]
+    modep = [p["n"] for p in f.params if "mode" in f.unit.types[p["t"]].get("s", "")] or ["mode"]
     for mode, fn in OPS.items():
-        got = arms.get(E.get(mode))
-        ok = got is not None and got[0] == fn and got[1] == ["set", "set", "newset"]
-        chk.inst("R-TAB", f, "mode:" + mode, ok, "%s is implemented by %s(set, set, newset) (found %s)" % (mode, fn, got))
+        seen_calls = []
+        def obs(nd, env, seen_calls=seen_calls):
+            if nd["k"] == "Call" and nd.get("fn") in OPS.values():
+                seen_calls.append((nd["fn"], [lv(z) for z in args(nd)]))
+        try:
+            peval.PathEval(P, f, {modep[0]: E.get(mode)}, is_effect=lambda *z: False, through_effects=True, observe=obs, maxstates=20000).run()
+        except AnalysisBroken as ex:
+            chk.broke("R-TAB: hwloc_calc_append_set not evaluable (%s)" % ex)
+            continue
+        ok = bool(seen_calls) and all(c[0] == fn and c[1][0] == c[1][1] == pm[0] and c[1][2] == pm[1] for c in seen_calls)
+        chk.inst("R-TAB", f, "mode:" + mode, ok, "with mode == %s exactly %s(%s, %s, %s) is reached (reached: %s)" % (mode, fn, pm[0], pm[0], pm[1], sorted(set(c[0] for c in seen_calls))))
     g = calc.func("hwloc_calc_process_location_as_set")
     if chk.need(g is not None, "R-TAB: hwloc_calc_process_location_as_set vanished"):
-        m = must.Must(g).run()
-        got = {}
-        for x in g.walk():
-            a = assigned(x)
-            if a and lv(a[0]) == "mode" and a[2] is not None and cval(a[2]) is not None:
-                st = m.before.get(x["id"], frozenset())
-                for fct in st:
-                    mm = re.match(r"\*arg == (.+)$", fct[1]) if fct[0] == "R" else None
-                    if mm:
-                        ch = mm.group(1).strip("'")
-                        got[ord(ch) if len(ch) == 1 else int(ch)] = cval(a[2])
-        for ch, mode in PREFIX.items():
-            chk.inst("R-TAB", g, "prefix:%s" % chr(ch), got.get(ch) == E.get(mode), "prefix '%s' selects %s (found mode value %s)" % (chr(ch), mode, got.get(ch)))
-        init = [x for x in g.walk() if x["k"] == "Var" and x["n"] == "mode"]
-        chk.inst("R-TAB", g, "prefix:none", bool(init) and cval(init[0]["c"][0]) == E.get("HWLOC_CALC_APPEND_ADD"), "no prefix means union (HWLOC_CALC_APPEND_ADD)")
+        argp = [p["n"] for p in g.params if "char" in g.unit.types[p["t"]].get("s", "")]
+        cases = dict(PREFIX)
+        cases[ord("a")] = "HWLOC_CALC_APPEND_ADD"
+        for ch, mode in sorted(cases.items()):
+            got = set()
+            def obs2(nd, env, got=got):
+                if nd["k"] == "Call" and nd.get("fn") == "hwloc_calc_append_set" and len(args(nd)) >= 3:
+                    got.add(peval.Evaluator(g, env).ev(args(nd)[2]))
+            try:
+                peval.PathEval(P, g, {"(*%s)" % argp[0]: ch}, is_effect=lambda *z: False, through_effects=True, observe=obs2, maxstates=40000).run()
+            except (AnalysisBroken, IndexError) as ex:
+                chk.broke("R-TAB: hwloc_calc_process_location_as_set not evaluable (%s)" % ex)
+                continue
+            name = "prefix:%s" % chr(ch) if ch != ord("a") else "prefix:none"
+            chk.inst("R-TAB", g, name, got == {E.get(mode)}, "with the first character %r every hwloc_calc_append_set call is given %s (values seen: %s)" % (chr(ch), mode, sorted(got, key=str)))
     chk.rule("R-SETKIND", "cpusets and nodesets never mixed in the tools (bitmap operations and argument passing)")
     ns = setkind.run(chk, P, UTIL_UNITS + LSTOPO_UNITS)
     chk.floor("R-SETKIND", "kinded bitmap operations in the tools", ns, 60)
